@@ -87,6 +87,12 @@ pub fn alphabet() -> Vec<Call> {
         c("i64", "1)", "0"),
         c("i64", "(1+2)*3", "0"),
         // the same function argument as in another evaluator's calls (a memo shared between evaluators)
+        // superscript runs (all five tokenizers share one helper for them)
+        c("f64", "2¹⁰", &f(0.0)),
+        c("i64", "3²+@³", "2"),
+        c("decimal", "2¹⁰", &d("0")),
+        c("complex", "(1+i)¹⁰", &cp(0.0, 0.0)),
+        c("number", "7²³", "I0"),
         // (bare calls: inside a sum with 6! a difference in the last place of w would be absorbed)
         c("decimal", "w(2)", &d("0")),
         c("decimal", "w(10)", &d("0")),
@@ -310,7 +316,7 @@ fn e_hist(cx: &RunCtx) {
                     } else {
                         match fresh(seq) {
                             Ok(v) if v.get(pos) == Some(&got) => "confirmed in a fresh process running exactly this history",
-                            Ok(_) => "only inside the long in-process history, not with this history alone",
+                            Ok(_) => "in-process only (other worker threads were calling the library at the same time, and this thread had a longer history): not with this history alone in a fresh process",
                             Err(_) => "fresh-process confirmation failed",
                         }
                     };
@@ -389,7 +395,7 @@ fn e_sweep_dom<D: Dom>(cx: &RunCtx, a: &[Call], iso: &[String]) {
         }
         let how = match (fresh_calls(&calls), fresh_calls(&calls[pos..pos + 1])) {
             (Ok(h), Ok(i)) if h.get(pos) != i.first() => "confirmed: a fresh process running exactly this history differs from a fresh process running the call alone",
-            (Ok(_), Ok(_)) => "only inside the long in-process history, not with this history alone",
+            (Ok(_), Ok(_)) => "in-process only (other worker threads were calling the library at the same time, and this thread had a longer history): not with this history alone in a fresh process",
             _ => "fresh-process confirmation failed",
         };
         rec.add(Violation {
@@ -789,6 +795,7 @@ fn e_sched(cx: &RunCtx) {
     scenarios.push(vec![vec![by("f64", "w(2)", 0), by("number", "w(2)", 0)], vec![by("number", "w(10)", 0), by("f64", "w(10)", 0)]]);
     scenarios.push(vec![vec![by("decimal", "((2+", 0), by("decimal", "(1+2)*3", 0)], vec![by("number", "min(2,", 0), by("number", "(1+2)*3", 0)]]);
     scenarios.push(vec![vec![by("complex", "((2+", 0), by("complex", "(1+2)*3", 0)], vec![by("complex", "1)", 0), by("complex", "sqrt(3+4i)", 0)]]);
+    scenarios.push(vec![vec![by("f64", "2¹⁰", 0), by("number", "7²³", 0)], vec![by("i64", "3²+@³", 0), by("decimal", "2¹⁰", 0)]]);
     if !quick {
         scenarios.push(vec![vec![by("f64", "med(30,10,20)", 0)], vec![by("f64", "med(90,70,80,60)", 0)], vec![by("f64", "@+1", 1)]]);
         scenarios.push(vec![vec![by("i64", "med(30,10,20)", 0)], vec![by("i64", "@+1", 0)], vec![by("i64", "@+1", 1)]]);
@@ -863,22 +870,35 @@ fn e_sched(cx: &RunCtx) {
 }
 
 /// free-running smoke test: same bodies on 16 unsynchronised threads (never decides on its own)
+/// Free-running pass: 16 OS threads execute the alphabet concurrently without any scheduler. It explores
+/// nothing systematically, so its silence means nothing and it is not part of the exhaustive verdict; but a
+/// call that returns something else than its isolated result here IS a violation (the functions are
+/// deterministic), so deviations are reported. This is the only place where state shared between threads and
+/// touched between two hook points (outside E-SCHED's reach) can show at all.
 fn smoke(cx: &RunCtx) {
     let a = alphabet();
     let iso: Vec<String> = a.iter().map(exec).collect();
     let bad = std::sync::atomic::AtomicU64::new(0);
+    let first: Mutex<Vec<(usize, String)>> = Mutex::new(Vec::new());
+    let rounds = if cx.tier == Tier::Quick { 400 } else { 4000 };
     std::thread::scope(|s| {
         for t in 0..16 {
             let a = &a;
             let iso = &iso;
             let bad = &bad;
+            let first = &first;
             s.spawn(move || {
-                for round in 0..200 {
-                    for (i, call) in a.iter().enumerate() {
-                        let k = (i + t + round) % a.len();
-                        let _ = call;
-                        if exec(&a[k]) != iso[k] {
+                for round in 0..rounds {
+                    for i in 0..a.len() {
+                        // same call on all threads in one half of the rounds, staggered calls in the other
+                        let k = if round % 2 == 0 { (i + round) % a.len() } else { (i + t + round) % a.len() };
+                        let got = exec(&a[k]);
+                        if got != iso[k] {
                             bad.fetch_add(1, std::sync::atomic::Ordering::Relaxed);
+                            let mut f = first.lock().unwrap();
+                            if f.len() < 8 && !f.iter().any(|(j, _)| *j == k) {
+                                f.push((k, got));
+                            }
                         }
                     }
                 }
@@ -886,7 +906,26 @@ fn smoke(cx: &RunCtx) {
         }
     });
     let b = bad.load(std::sync::atomic::Ordering::Relaxed);
-    cx.note(format!("free-running 16-thread smoke pass: {} deviating results out of {} calls (smoke test only)", b, 16 * 200 * a.len()));
+    for (k, got) in first.into_inner().unwrap() {
+        cx.rec.add(Violation {
+            kind: Kind::Relation,
+            ev: a[k].ev.to_string(),
+            input: show_call(&a[k]),
+            at_enc: "free-running".into(),
+            at_show: String::new(),
+            at_rust: String::new(),
+            expected: format!("{} — its isolated result", iso[k]),
+            observed: format!("{} while 15 other threads were calling the library ({} deviating results in this pass)", got, b),
+            engine: "E-PAR free-running threads".into(),
+            family: None,
+            detail: json!({}),
+        });
+    }
+    cx.note(format!(
+        "free-running 16-thread pass: {} deviating results out of {} calls (not exhaustive: silence here means nothing)",
+        b,
+        16 * rounds * a.len()
+    ));
 }
 
 pub fn c16(cx: &RunCtx) {
